@@ -77,7 +77,7 @@ theorem overlay_of_ok {env : Env} {root : Mod} {t : Stmt} {src : Source} {tdY : 
 attributes the specification computes. -/
 theorem resolve_admissible (env : Env) (s0 : Site) (hS : Standing env s0) :
     ∀ (fuel : Nat) (root : Mod) (scope : List Stmt) (t : Stmt) (stack : List TypeKey) (a : Attrs),
-      InSet env root scope t → t.kw = "type" → Admissible env root scope t a →
+      InSet env root scope t → PartOfSchema env.reg root → t.kw = "type" → Admissible env root scope t a →
       UsesStar env.reg s0 (root, scope, t) → StackOk env.reg s0 (root, scope, t) stack →
       stack.Nodup → (∀ k ∈ stack, k ∈ allTypeKeys env.reg) →
       (allTypeKeys env.reg).length + 1 ≤ fuel + stack.length →
@@ -85,11 +85,11 @@ theorem resolve_admissible (env : Env) (s0 : Site) (hS : Standing env s0) :
   intro fuel
   induction fuel with
   | zero =>
-    intro root scope t stack _ _ _ _ _ _ hnd hsub hlen
+    intro root scope t stack _ _ _ _ _ _ _ hnd hsub hlen
     have := nodup_subset_length stack (allTypeKeys env.reg) hnd hsub
     omega
   | succ fuel ih =>
-    intro root scope t stack a hin hkw hadm hs0 hst hnd hsub hlen
+    intro root scope t stack a hin hsch hkw hadm hs0 hst hnd hsub hlen
     obtain ⟨hroot, ht, hscope⟩ := hin
     have hres := admissible_resolvable hadm
     have hacc := resolvable_acc' hres (hS.unamb.step hs0)
@@ -123,7 +123,7 @@ theorem resolve_admissible (env : Env) (s0 : Site) (hS : Standing env s0) :
             cases hs with
             | head => exact ht
             | tail _ hs => exact hscope s hs⟩
-          (kw_of_all hut) (hm ut hut) (UsesStar.tail hs0 huse) (hst.push hs0 huse) hnd' hsub' hlen'
+          hsch (kw_of_all hut) (hm ut hut) (UsesStar.tail hs0 huse) (hst.push hs0 huse) hnd' hsub' hlen'
         rw [hy]
       cases hadm with
       | builtin y memAttrs hy hok hm =>
@@ -131,7 +131,7 @@ theorem resolve_admissible (env : Env) (s0 : Site) (hS : Standing env s0) :
         rw [resolve_builtin hc' hl]
         exact overlay_of_ok (src := .builtin) hok (hmembers memAttrs hm)
       | derived m td sc tt a0 memAttrs hbind htt hbase htdok hok hm =>
-        obtain ⟨src, r, hl⟩ := lookup_complete env hS.seqId hS.linked hS.imports root hroot scope t hbind
+        obtain ⟨src, r, hl⟩ := lookup_complete env hS.seqId hS.linked hS.imports root hroot hsch scope t hbind
         have hb' := lookup_binds env root scope t (type_not_scope hkw) src r hl
         obtain ⟨e1, e2, e3⟩ := hS.unamb _ hs0 _ _ _ _ _ _ hbind hb'
         subst e1 e2 e3
@@ -143,7 +143,7 @@ theorem resolve_admissible (env : Env) (s0 : Site) (hS : Standing env s0) :
             cases hs with
             | head => exact hr2
             | tail _ hs => exact hr3 s hs⟩
-          (kw_of_one htt) hbase (UsesStar.tail hs0 huse) (hst.push hs0 huse) hnd' hsub' hlen'
+          (binds_partOfSchema hsch hbind) (kw_of_one htt) hbase (UsesStar.tail hs0 huse) (hst.push hs0 huse) hnd' hsub' hlen'
         obtain ⟨tdY, htdY, hta⟩ := typedefOverlay_of_ok (td := r.td) (ty := bty) htdok
         rw [resolve_typedef hc' hl htt]
         simp only [hbty, htdY, List.isEmpty_nil, Bool.not_true, Bool.false_eq_true, if_false]
